@@ -45,6 +45,8 @@ def run_sequence(case):
     regular = L.is_regular(pts, losses)
     v = []
     info = {"delivered": 0, "raised": None, "regular": regular}
+    handed_out = []   # (call, the array object the sampler returned, a copy of it)
+    target = np.array([g[(3 * len(g)) // 5] for g in space.param_grid], dtype=float)
     old = signal.signal(signal.SIGALRM, _alarm)
     try:
         ncalls = case.get("calls", 3)
@@ -90,10 +92,29 @@ def run_sequence(case):
                     break
             if v:
                 break
+            if call < ncalls:
+                handed_out.append((call, out, out.copy()))
             # extend the history with the returned batch and a fixed loss function of the row index
+            # (or, for long sequences, with the distance to a fixed grid point: the search converges and proposals start to repeat)
             k = np.arange(len(pts), len(pts) + bs, dtype=float)
+            if case.get("loss_fn") == "distance":
+                span = np.array([max(1e-300, float(g[-1] - g[0])) for g in space.param_grid])
+                losses = np.concatenate([losses, np.sum(((out - target) / span) ** 2, axis=1)])
+                pts = np.vstack([pts, out])
+                continue
             pts = np.vstack([pts, out]) if case.get("hist_dtype") != "int" or not np.all(out == np.round(out)) else np.vstack([pts, out.astype(np.int64)])
             losses = np.concatenate([losses, 1.0 + ((k * 5) % 11) * 0.21])
+        if not v and handed_out and not info["raised"]:
+            # a batch that was handed out stays what it was: ANOTHER sampler of the same batch shape, used afterwards on ANOTHER space
+            # (a second calibration in the same process), must not rewrite it
+            other_idx = [(i + 7) % len(L.SPECS) for i in case["space"]]
+            other = L.make_sampler("Halton", {}, bs, case["seed"] + 1)
+            with quiet():
+                other.sample(L.make_space(other_idx), *L.history(L.make_space(other_idx), 3, "distinct"))
+            for call, arr, cp in handed_out:
+                if arr.shape != cp.shape or not np.array_equal(arr, cp, equal_nan=True):
+                    v.append(("returned-batch-overwritten-later", f"the batch returned by call {call} was rewritten by later sample() calls (now {np.asarray(arr).tolist()[:2]}, was {cp.tolist()[:2]})"))
+                    break
     finally:
         signal.signal(signal.SIGALRM, old)
     return v, info
@@ -175,6 +196,11 @@ def main(ctx):
     for name, opts in L.COSTLY:
         for sp in ([1], [3, 4]):
             cases.append({"space": sp, "sampler": name, "opts": opts, "bs": 2, "seed": S, "n": 3 * B, "pattern": "distinct", "calls": 2, "space2": [(i + 5) % len(L.SPECS) for i in sp]})
+    # long sequences on one object with a loss that lets the search converge (proposals repeat, swarms stall)
+    for name, opts in (("ParticleSwarm", {}), ("ParticleSwarm", {"global_minimum_across_samplers": True}), ("BestBatch", {"perturbation_range": 2})):
+        for sp in ([1], [3], [4], [11], [1, 11], [4, 8], [0, 3], [12, 5]):
+            for bsz in (2, 5):
+                cases.append({"space": sp, "sampler": name, "opts": opts, "bs": bsz, "seed": S, "n": 3 * B, "pattern": "distinct", "calls": 40 if ctx.quick else 120, "loss_fn": "distance"})
     # on-grid histories typed as integer arrays (fractional steps, whole-number elements)
     for sp in ([12], [5], [8], [9], [0], [2], [12, 12], [5, 8], [9, 12], [8, 12, 5], [2, 5]):
         for name, opts in L.CHEAP:
